@@ -114,3 +114,66 @@ Fixpoint run_items (fuel : nat) (async : bool) (max : Z) (stream : bytes) (sched
   end.
 Definition reader_items (async : bool) (max : Z) (stream : bytes) (sched : list nat) : list out :=
   run_items (S (length stream)) async max stream sched.
+
+(* ---------------------------------------------------------------- the read step of Peer._main: timeouts
+   Peer._read_message_or_nop waits at most 100 ms for the pending read and KEEPS it when the wait times
+   out: a schedule is now a list of events, `Recv k` (the next recv hands over at most k+1 bytes) or
+   `Timeout` (the wait expired).  `keep = true` is the code as it is; `keep = false` is the earlier
+   behaviour (asyncio.wait_for cancelled the read: the bytes already taken from the socket were dropped
+   and the next read started with a fresh header). *)
+Inductive tev := Recv (k : nat) | Timeout.
+
+(* bytes of the current message read so far (header and body together) *)
+Record tstate := { t_acc : bytes; t_rest : bytes }.
+
+Definition need_of (max : Z) (acc : bytes) : option nat :=
+  (* how many more bytes the current message needs, None when the header is refused *)
+  if (length acc <? 19)%nat then Some (19 - length acc)%nat
+  else
+    let hdr := firstn 19 acc in
+    let hb := fun i => nth (Z.to_nat i) hdr 0 in
+    match check_header_async hb (list_eqb (firstn 16 hdr) MARKER) max with
+    | HErr _ _ _ => None
+    | HDone _ _ => Some 0%nat
+    | HBody len _ _ => Some (Z.to_nat len - length acc)%nat
+    end.
+
+Definition finish_msg (max : Z) (acc : bytes) : out :=
+  let hdr := firstn 19 acc in
+  let hb := fun i => nth (Z.to_nat i) hdr 0 in
+  match check_header_async hb (list_eqb (firstn 16 hdr) MARKER) max with
+  | HErr len c s => deliver {| it_len := len; it_type := 0; it_header := hdr; it_body := []; it_err := Some (c, s) |}
+  | HDone len msg => deliver {| it_len := len; it_type := msg; it_header := hdr; it_body := []; it_err := None |}
+  | HBody len msg _ => deliver {| it_len := len; it_type := msg; it_header := hdr; it_body := skipn 19 acc; it_err := None |}
+  end.
+
+Definition treset (s : tstate) : tstate := {| t_acc := []; t_rest := t_rest s |}.
+
+Fixpoint run_timed (keep : bool) (max : Z) (evs : list tev) (s : tstate) : list out :=
+  match evs with
+  | [] => []
+  | Timeout :: evs' => run_timed keep max evs' (if keep then s else treset s)
+  | Recv k :: evs' =>
+      match need_of max (t_acc s), t_rest s with
+      | Some (S n), _ :: _ =>
+          let got := Nat.min (Nat.min (S k) (S n)) (length (t_rest s)) in
+          let acc' := t_acc s ++ firstn got (t_rest s) in
+          let rest' := skipn got (t_rest s) in
+          match need_of max acc' with
+          | None => [finish_msg max acc']                       (* the header just completed is refused *)
+          | Some O => let o := finish_msg max acc' in
+                      if is_notify o then [o] else o :: run_timed keep max evs' {| t_acc := []; t_rest := rest' |}
+          | Some (S _) => run_timed keep max evs' {| t_acc := acc'; t_rest := rest' |}
+          end
+      | _, _ => []          (* end of the stream inside a message (LostConnection) *)
+      end
+  end.
+
+Definition timed_reader (keep : bool) (max : Z) (stream : bytes) (evs : list tev) : list out :=
+  run_timed keep max evs {| t_acc := []; t_rest := stream |}.
+
+Definition is_recv (e : tev) : bool := match e with Recv _ => true | Timeout => false end.
+
+(* the read step of the tree as it is: READ_KEPT is regenerated from Peer._read_message_or_nop *)
+Definition main_reader (max : Z) (stream : bytes) (evs : list tev) : list out :=
+  timed_reader READ_KEPT max stream evs.
